@@ -1,6 +1,7 @@
 import UberjobModel.Lemmas.CacheHistory
 import UberjobModel.Lemmas.ExecFinal
 import UberjobModel.Lemmas.ExecNorm
+import UberjobModel.Lemmas.ExecProd
 import UberjobModel.Props.C04
 /-!
 # C03 — an incremental run gives the same outputs and stored values as from scratch
@@ -188,6 +189,101 @@ theorem C03_end_to_end_norm {P : Input} (nm : Nat → V → V) {w0 w0' : World} 
         simp only [XSt.get, hl', Bool.false_eq_true, if_false, h1', Option.getD_some]
         rw [h2, N_app_plain (by rw [hr]; simp)]; rfl
 
+open Uberjob.Phys Uberjob.Exec in
+/-- **A run that returns normally, under ANY schedule, WITH PRODUCERS** — user calls that rewrite a dependent source as a
+    side effect (`Model/ExecProd.lean`; `SetupP`: every producer is private to its source, an out-of-date source has one,
+    whatever else the source depends on is upstream of the producer).  The sources change while the run is going on, so
+    "from scratch" refers to what the sources hold when the run has returned: with respect to what the sources hold when the run
+    has returned, every non-source store holds its from-scratch value; every source that was out of date holds what its
+    producer computes from scratch; the other sources are untouched; the returned node holds the from-scratch value of the
+    requested output; and nothing is out of date any more. -/
+theorem C03_end_to_end_prod {P : Input} {pr : Nat → Option Nat} {w0 : World} {F : Option Int} {c0 : Int} (S : SetupP P pr w0 F c0)
+    {cfg : Engine.Cfg} (hw : 1 ≤ cfg.workers) {s : Engine.St} (h : Engine.Reach (engineGraph P) cfg s)
+    (hc : s.coord = .returned false) (hf : s.failed = []) :
+    let xf := execOrderP P pr (initX w0 c0) s.okd
+    (∀ i, P.regOf i = some false → ∃ t, xf.w.st i = some (FS P.toLPlan xf.w i, t)) ∧
+    (∀ j d, pr j = some d → P.isStale d = true → xf.w.content d = some (FS P.toLPlan xf.w j)) ∧
+    (∀ d, P.regOf d = some true → P.isStale d = false → xf.w.st d = w0.st d) ∧
+    (∀ o, P.out = some o → o ∈ P.nodes → ∀ a, physOut P = some a → xf.get P a = FS P.toLPlan xf.w o) ∧
+    (∀ k, isStale P.toLPlan xf.w F k = false) := by
+  intro xf
+  have hL := toLPlan_wf S.wf
+  have I : XInvP P pr w0 c0 s.okd xf := xinvP_reach S h
+  have hall := (Engine.C04_exact (engine_wf P) hw h (rank := id) (engine_ranked S.wf) hc hf).2
+  have notTch : ∀ i, P.isStale i = false → ¬ Tch pr s.okd i := fun i hns ht => by
+    rw [(tch_stale S h I ht).2] at hns; cases hns
+  refine ⟨?_, ?_, ?_, ?_, ?_⟩
+  · intro i hri
+    by_cases hst : P.isStale i = true
+    · have hm := (hall _).mpr (write_kept S.wf hri hst)
+      obtain ⟨t, hmt, _⟩ := I.touched i (Or.inl hm)
+      have hct := I.writtenOk i hm
+      cases hx : xf.w.st i with
+      | none => simp [World.mtime, hx] at hmt
+      | some vt =>
+        simp only [World.content, World.mtime, hx, Option.map_some, Option.some.injEq] at hct hmt
+        exact ⟨vt.2, by rw [← hct]⟩
+    · have hst' : P.isStale i = false := by simpa using hst
+      have hu := I.untouched i (notTch i hst')
+      have hns : isStale P.toLPlan w0 F i = false := by rw [← S.stale]; exact hst'
+      obtain ⟨t, ht⟩ := fresh_content hL S.good (u := i) hri hns
+      exact ⟨t, by rw [hu, ht, FS_now_of_fresh S h I hst']⟩
+  · intro j d hp hst
+    exact I.prodOk j d hp ((hall _).mpr (producer_kept S hp hst))
+  · intro d _ hst
+    exact I.untouched d (notTch d hst)
+  · intro o ho hon a ha
+    simp only [physOut, ho, Option.map_some, Option.some.injEq] at ha
+    cases hr : P.regOf o with
+    | some sr =>
+      simp only [hr, Option.isSome_some, if_true] at ha
+      subst ha
+      have hb : PN.read o ∈ (physBuild P).nodes := read_mem (r := (o, sr)) (mem_of_regOf hr)
+      have hk := out_kept (P := P) (a := .read o) (by simp [physOut, ho, hr]) hb
+      have := (hall _).mpr (engine_of_final hk rfl)
+      simp only [XSt.get, I.readOk o this, Option.getD_some]
+    | none =>
+      simp only [hr, Option.isSome_none, Bool.false_eq_true, if_false] at ha
+      subst ha
+      by_cases hl : P.lits.contains o = true
+      · simp only [XSt.get, hl, if_true]
+        exact (FS_litP S.wf S.litArgs xf.w hl (by rw [hr]; simp)).symm
+      · have hl' : P.lits.contains o = false := by simpa using hl
+        have hk := out_kept (P := P) (a := .orig o) (by simp [physOut, ho, hr]) (orig_mem hon)
+        have := (hall _).mpr (engine_of_final hk (by simpa [PN.isLit] using hl'))
+        simp only [XSt.get, hl', Bool.false_eq_true, if_false, I.origOk o this hl' (by rw [hr]; simp), Option.getD_some]
+  · apply complete_run_fresh hL (w0 := w0) (F := F) (lin := linP pr s.okd xf.w)
+    · intro j hj
+      apply I.untouched j
+      intro ht
+      obtain ⟨t, hmt, _⟩ := I.touched j ht
+      exact hj t (mem_linP.mpr ⟨ht, hmt⟩)
+    · intro j t hm; exact (mem_linP.mp hm).2
+    · intro j t hm
+      obtain ⟨hreg, hst⟩ := tch_stale S h I (mem_linP.mp hm).1
+      exact ⟨hreg, by rw [← S.stale]; exact hst⟩
+    · intro j sj hreg hst
+      have hstj : P.isStale j = true := by rw [S.stale]; exact hst
+      have hregj : P.regOf j = some sj := hreg
+      have htch : Tch pr s.okd j := by
+        cases sj with
+        | false => exact Or.inl ((hall _).mpr (write_kept S.wf hregj hstj))
+        | true =>
+          obtain ⟨jq, hjq⟩ := S.srcStale j hregj hstj
+          exact Or.inr ⟨jq, hjq, (hall _).mpr (producer_kept S hjq hstj)⟩
+      obtain ⟨t, hmt, _⟩ := I.touched j htch
+      exact ⟨t, mem_linP.mpr ⟨htch, hmt⟩⟩
+    · intro j t hm
+      obtain ⟨ht, hmt⟩ := mem_linP.mp hm
+      obtain ⟨t', hmt', hc'⟩ := I.touched j ht
+      have : t = t' := by rw [hmt] at hmt'; exact Option.some.inj hmt'
+      subst this
+      exact ⟨below_mono S.below hc', fun f hf' => Int.le_trans (S.fresh f hf') hc'⟩
+    · intro q tq k tk hq hk hne hr
+      obtain ⟨hq1, hq2⟩ := mem_linP.mp hq
+      obtain ⟨hk1, hk2⟩ := mem_linP.mp hk
+      exact I.order q k tq tk hne hq1 hk1 hq2 hk2 hr
+
 /-! Non-vacuity of the end-to-end theorems: source 0 → stored call 1 → stored call 2 (the output); the source holds a
     value, both stored values are missing.  The hypotheses `Setup` hold, a schedule of the engine model runs the physical
     plan to a normal return, and the execution leaves `a2(a1(s0.1))` in store 2 and in the output slot. -/
@@ -292,6 +388,127 @@ example : ((execOrderN exQ tagNorm (initX w0q 2) [4, 5, 7, 9, 10, 12, 14]).get e
 example : (exQ.N tagNorm (FS exQ.toLPlan w0q 2)).toStr = "a1000002(a2(a1000001(a1(s0.1))))" := by decide
 
 end ExQ
+
+/-! Non-vacuity of `C03_end_to_end_prod`: pure source 0 → producer 1 (an unregistered call) —dep→ dependent source 2 → stored
+    call 3 (the output); source 0 holds a value, the dependent source and the stored value are missing.  The hypotheses
+    `SetupP` hold; a schedule of the engine model runs the plan to a normal return (read 0, producer, read 2, call 3,
+    write 3, read 3); the execution leaves `a1(s0.1)` — what the producer computes — in the dependent source and
+    `a3(a1(s0.1))` in store 3 and in the output. -/
+namespace ExR
+open Uberjob.Phys Uberjob.Exec
+
+def exR : Input :=
+  ⟨[0, 1, 2, 3], [], [⟨0, 1, .pos 0⟩, ⟨1, 2, .dep⟩, ⟨2, 3, .pos 0⟩], [(0, true), (2, true), (3, false)], [2, 3], some 3⟩
+def prR (j : Nat) : Option Nat := if j = 1 then some 2 else none
+def w0r : World := ⟨fun i => if i = 0 then some (.src 0 1, 1) else none⟩
+def exRrun : List Engine.Label :=
+  [.spawn,
+   .get 0 (.node 4), .check 0, .finOk 0, .release 0 5, .taskDone 0,
+   .get 0 (.node 5), .check 0, .finOk 0, .release 0 14, .taskDone 0,
+   .get 0 (.node 14), .check 0, .finOk 0, .release 0 15, .taskDone 0,
+   .get 0 (.node 15), .check 0, .finOk 0, .release 0 17, .taskDone 0,
+   .get 0 (.node 17), .check 0, .finOk 0, .release 0 19, .taskDone 0,
+   .get 0 (.node 19), .check 0, .finOk 0, .taskDone 0,
+   .joinReturn, .setStop, .putDone, .get 0 .done, .check 0, .taskDone 0, .joined]
+
+theorem exR_setup : SetupP exR prR w0r none 2 where
+  wf := by constructor <;> decide
+  stale := by
+    intro x
+    by_cases hx : x < 4
+    · have : x = 0 ∨ x = 1 ∨ x = 2 ∨ x = 3 := by omega
+      rcases this with rfl | rfl | rfl | rfl <;> decide
+    · have h1 : exR.isStale x = false := by
+        simp only [Input.isStale, exR, List.contains_eq_mem, List.mem_cons, List.not_mem_nil, or_false,
+          decide_eq_false_iff_not]
+        omega
+      rw [h1]
+      symm
+      apply ExQ.isStale_isolated (toLPlan_wf (by constructor <;> decide))
+      · show exR.logicalPreds x = []
+        simp only [Input.logicalPreds, exR, List.filter_cons, List.filter_nil]
+        have h1 : ((1 : Nat) == x) = false := by simp; omega
+        have h2 : ((2 : Nat) == x) = false := by simp; omega
+        have h3 : ((3 : Nat) == x) = false := by simp; omega
+        simp [h1, h2, h3, dedup]
+      · show exR.regOf x = none
+        simp only [Input.regOf, exR, List.find?_cons, List.find?_nil]
+        have h0 : ((0 : Nat) == x) = false := by simp; omega
+        have h2 : ((2 : Nat) == x) = false := by simp; omega
+        have h3 : ((3 : Nat) == x) = false := by simp; omega
+        simp [h0, h2, h3]
+  litArgs := by decide
+  good := good_empty _ (by
+    intro i hi
+    have : i ≠ 0 := by
+      rintro rfl
+      have : exR.toLPlan.reg 0 = some true := by decide
+      rw [this] at hi; cases hi
+    simp [w0r, this])
+  below := by
+    intro i m hm
+    by_cases hi : i = 0
+    · subst hi; simp [World.mtime, w0r] at hm; omega
+    · simp [World.mtime, w0r, hi] at hm
+  fresh := by intro f hf; cases hf
+  prodOk := by
+    intro j d hp
+    unfold prR at hp
+    split at hp
+    · next hj => subst hj; cases hp; decide
+    · cases hp
+  prodInj := by
+    intro j j' d h1 h2
+    unfold prR at h1 h2
+    split at h1 <;> split at h2 <;> simp_all
+  srcStale := by
+    intro d hr hst
+    refine ⟨1, ?_⟩
+    have hd : d = 2 ∨ d = 3 := by
+      simp only [Input.isStale, exR, List.contains_eq_mem, List.mem_cons, List.not_mem_nil, or_false,
+        decide_eq_true_eq] at hst
+      exact hst
+    rcases hd with rfl | rfl
+    · rfl
+    · exact absurd hr (by decide)
+  depsUp := by
+    intro j d hp q sq hq hr hne
+    unfold prR at hp
+    split at hp
+    · next hj =>
+      subst hj; cases hp
+      have hle := Cache.Reach.le (toLPlan_wf (by constructor <;> decide)) hr
+      have hq3 : q = 0 ∨ q = 1 ∨ q = 2 := by omega
+      rcases hq3 with rfl | rfl | rfl
+      · exact Cache.Reach.step (Cache.Reach.refl 0) (by decide)
+      · exact Cache.Reach.refl 1
+      · exact absurd rfl hne
+    · cases hp
+  prodNotOut := by
+    intro j d hp
+    unfold prR at hp
+    split at hp
+    · next hj => subst hj; decide
+    · cases hp
+
+theorem exR_run : ∃ s, Engine.Reach (engineGraph exR) ⟨1, some 0⟩ s ∧ s.coord = .returned false ∧ s.failed = [] ∧
+    s.okd = [4, 5, 14, 15, 17, 19] := by
+  have hd : (Engine.run? (engineGraph exR) ⟨1, some 0⟩ (Engine.init (engineGraph exR)) exRrun).map
+      (fun s => (s.coord, s.failed, s.okd)) = some (.returned false, [], [4, 5, 14, 15, 17, 19]) := by decide
+  cases hr : Engine.run? (engineGraph exR) ⟨1, some 0⟩ (Engine.init (engineGraph exR)) exRrun with
+  | none => rw [hr] at hd; cases hd
+  | some s =>
+    rw [hr] at hd
+    simp only [Option.map_some, Option.some.injEq, Prod.mk.injEq] at hd
+    exact ⟨s, Engine.reach_of_run Engine.Reach.init hr, hd.1, hd.2.1, hd.2.2⟩
+
+example : ((execOrderP exR prR (initX w0r 2) [4, 5, 14, 15, 17, 19]).w.st 2).map (fun p => (p.1.toStr, p.2))
+    = some ("a1(s0.1)", 2) := by decide
+example : ((execOrderP exR prR (initX w0r 2) [4, 5, 14, 15, 17, 19]).w.st 3).map (fun p => (p.1.toStr, p.2))
+    = some ("a3(a1(s0.1))", 3) := by decide
+example : ((execOrderP exR prR (initX w0r 2) [4, 5, 14, 15, 17, 19]).get exR (.read 3)).toStr = "a3(a1(s0.1))" := by decide
+
+end ExR
 
 /-! Non-vacuity: a history with a stale stored value, then the repairing run. -/
 def chainQ : LPlan := ⟨3, fun i => if i = 0 then [] else [i - 1], fun i => if i = 0 then [] else [i - 1],
